@@ -101,6 +101,13 @@ def raise_cond(h, self_, parent, clash):
                                   links_cross(h, self_, parent)))
 
 
+def roots_after(h0, h1, self_, parent):
+    """closed form of the tree roots after `self_.parent = parent` (lemmas R3a / R3b / R3det): the subtree of self_ joins the tree of its new parent (or becomes a tree of its own)"""
+    newp = If(parent != null, parent, If(h0.own[self_] != W.null, h0.root[h0.own[self_]], null))
+    newroot = If(newp == null, self_, rootof(h0.par, newp))
+    return ForAll([x], Implies(x != null, rootof(h1.par, x) == If(insub(h0.par, self_, x), newroot, rootof(h0.par, x))), patterns=[rootof(h1.par, x)])
+
+
 def effect(h0, h1, self_, parent):
     newp = If(parent != null, parent, If(h0.own[self_] != W.null, h0.root[h0.own[self_]], null))
     return {
@@ -159,6 +166,17 @@ def F2below(h, t):
     return ForAll([c_], Implies(And(c_ != null, h.par[c_] != null, Desc(h.par, t, c_)), mem(h.ch(h.par[c_]), c_)), patterns=[Desc(h.par, t, c_)])
 
 
+class _Quiet:
+    """the [ids] unit of the parent setter carries only the clauses U1 needs; the call-site obligations of the callees are discharged in the core unit"""
+    def __init__(self, st): self.st = st
+    def oblige(self, *a, **k): pass
+    def __getattr__(self, n): return getattr(self.st, n)
+
+
+def quiet(eng, st):
+    return _Quiet(st) if getattr(eng, 'oblige_only', None) is not None else st
+
+
 def oblige_struct(st, h, who, line, up=False, forest=True, below=None):
     """the callee's structural pre-condition, obliged clause by clause (each is a clause of the caller's invariant: one small query each)"""
     I = Inv(h)
@@ -173,8 +191,8 @@ def oblige_struct(st, h, who, line, up=False, forest=True, below=None):
 
 def c_all_children(eng, st, recv, args, kws, node):
     # contract of Task.all_children, proved in contracts/closure.py (there also: depth-first order, each once); the part used here: exactly the strict descendants
-    h = H(eng, st)
-    st.oblige('req@all_children/task-non-null', recv.e != null, f'@{node.lineno}'); oblige_struct(st, h, 'all_children', node.lineno, below=recv.e)
+    h = H(eng, st); q = quiet(eng, st)
+    q.oblige('req@all_children/task-non-null', recv.e != null, f'@{node.lineno}'); oblige_struct(q, h, 'all_children', node.lineno, below=recv.e)
     A = fresh('allch', LT)
     st.assume(ForAll([x], mem(A, x) == Desc(h.par, recv.e, x), patterns=[mem(A, x)]))
     return [(st, V(A, LT))]
@@ -193,18 +211,19 @@ def c_children(eng, st, recv, args, kws, node):
 
 def c_attach(eng, st, recv, args, kws, node):
     # Task._attach(wbs): sets the owner of the whole subtree when wbs is not None (its own unit: attach_unit)
-    h = H(eng, st); Wn = args[0].e; me = recv.e
+    h = H(eng, st); Wn = args[0].e; me = recv.e; st_real = st; st = quiet(eng, st)
     for lab, g in (('task-non-null', me != null), ('C01/F4-no-task-is-its-own-ancestor', Acyc(h.par)), ('N-null-has-no-parent', h.par[null] == null), ('C01/F1-below-the-task', F1below(h, me)),
                    ('C01/F2-below-the-task', F2below(h, me)), ('C01/F3-no-child-listed-twice', Inv(h)['C01/F3-no-child-listed-twice']),
                    ('children-list-objects-exist', ForAll([t_], Implies(t_ != null, h.chl[t_] != LR.null), patterns=[h.chl[t_]]))):
         st.oblige(f'req@_attach/{lab}', g, f'@{node.lineno}')
+    st = st_real
     eng.write(st, 'Task._Task__wbs', Lambda([x], If(And(Wn != W.null, insub(h.par, recv.e, x)), Wn, h.own[x])))
     return [(st, V(None, NONE))]
 
 
 def c_check_links(eng, st, recv, args, kws, node):
     # contract of _check_no_links_to_ancestors, proved in contracts/closure.py
-    h = H(eng, st); s, p = args[0].e, args[1].e
+    h = H(eng, st); s, p = args[0].e, args[1].e; st_real = st; st = quiet(eng, st)
     st.oblige('req@_check_no_links_to_ancestors/tasks-non-null', And(s != null, p != null), f'@{node.lineno}')
     oblige_struct(st, h, '_check_no_links_to_ancestors', node.lineno, up=True, below=s)
     st.oblige('req@_check_no_links_to_ancestors/link-list-objects-exist', ForAll([t_], Implies(t_ != null, h.pre[t_] != LR.null), patterns=[h.pre[t_]]), f'@{node.lineno}')
@@ -212,6 +231,7 @@ def c_check_links(eng, st, recv, args, kws, node):
     st.oblige('req@_check_no_links_to_ancestors/reserved-id-tasks-are-not-linked',
               ForAll([t_, a_], Implies(And(t_ != null, h.tid[a_] == EMPTY), And(Not(mem(h.P(t_), a_)), Not(mem(h.S(t_), a_)))), patterns=[mem(h.P(t_), a_), mem(h.S(t_), a_)]), f'@{node.lineno}')
     st.oblige('req@_check_no_links_to_ancestors/NN-no-None-in-links', Inv(h)['NN-no-None-in-links'], f'@{node.lineno}')
+    st = st_real
     ok = st.fork(Not(links_cross(h, s, p))); exc = st.fork(links_cross(h, s, p))
     ta, an = Consts('ta_ an_', T.z)
     # reveal (definition, contrapositive): no task of the subtree is linked with p or one of its ancestors
@@ -224,15 +244,15 @@ def exempt_ok(h, X, newparent):
     return And(Implies(newparent != null, Not(X(newparent))), ForAll([w_], Implies(w_ != W.null, Not(X(h.root[w_]))), patterns=[h.root[w_]]))
 
 
-def parent_setter_call(eng, st, task, newparent, line, X=None):
+def parent_setter_call(eng, st, task, newparent, line, X=None, ids=False):
     """the contract of Task.parent.setter used at a call site (also: its own nested call through roots.append).  X: tasks exempt from W1r before
     the call (see Inv); after the call the subtree of `task` is no longer exempt"""
     h0 = H(eng, st)
     only = getattr(eng, 'oblige_only', None)
     for lab, g in Inv(h0, hole=task, X=X).items():
-        if (only is None and lab != U1) or (only is not None and lab in only): st.oblige(f'req@parent.setter/{lab}', g, f'@{line}')
+        if (only is None and (lab != U1 or ids)) or (only is not None and lab in only): st.oblige(f'req@parent.setter/{lab}', g, f'@{line}')
     st.oblige('req@parent.setter/task-is-no-hidden-root', And(task != null, ForAll([w_], Implies(w_ != W.null, h0.root[w_] != task))), f'@{line}')
-    if X is not None: st.oblige('req@parent.setter/exempt-set-spares-the-new-parent-and-the-hidden-roots', exempt_ok(h0, X, newparent), f'@{line}')
+    if X is not None and only is None: st.oblige('req@parent.setter/exempt-set-spares-the-new-parent-and-the-hidden-roots', exempt_ok(h0, X, newparent), f'@{line}')
     clash = clashfn(newparent, task, h0)
     rc = raise_cond(h0, task, newparent, clash)
     exc = st.fork(rc); ok = st.fork(Not(rc))
@@ -240,7 +260,8 @@ def parent_setter_call(eng, st, task, newparent, line, X=None):
     for k in HEAP_KEYS: eng.havoc(ok, k)
     h1 = H(eng, ok)
     post = Inv(h1, X=None if X is None else (lambda c: And(X(c), Not(insub(h0.par, task, c)))))
-    if only is None: post.pop(U1)
+    if only is None:
+        if not ids: post.pop(U1)
     else: post = {k: v for k, v in post.items() if k in only}
     for g in list(post.values()) + list(effect(h0, h1, task, newparent).values()): ok.assume(g)
     newp = If(newparent != null, newparent, If(h0.own[task] != W.null, h0.root[h0.own[task]], null))
@@ -293,8 +314,13 @@ def parent_setter_unit(kind='core'):
         if ids:
             fc = {'sig': {'self': T, 'parent': T}, 'ghost': {'X': S('SET', SET)},
                   'requires': [(l_, req(l_)) for l_ in IDS_NEED + ['task-is-no-hidden-root']],
-                  'raises': {'RuntimeError': []},
-                  'ensures': [(U1, lambda c: Inv(H(c.eng, c.st))[U1])]}
+                  'raises': {'RuntimeError': []}, 'chain_ensures': True,
+                  'ensures': [('lemma/C05/tree-roots-after-the-move', lambda c: roots_after(pre_h(c), H(c.eng, c.st), c['self'], c['parent'])),
+                              ('lemma/C05/the-moved-subtree-was-in-one-tree', lambda c: ForAll([x], Implies(And(x != null, insub(pre_h(c).par, c['self'], x)), rootof(pre_h(c).par, x) == rootof(pre_h(c).par, c['self'])),
+                                                                                                 patterns=[rootof(pre_h(c).par, x)])),
+                              ('lemma/C05/a-task-whose-tree-root-is-the-moved-task-is-in-its-subtree', lambda c: ForAll([x], Implies(And(x != null, rootof(pre_h(c).par, x) == c['self']), insub(pre_h(c).par, c['self'], x)),
+                                                                                                                          patterns=[rootof(pre_h(c).par, x)])),
+                              (U1, lambda c: Inv(H(c.eng, c.st))[U1])]}
             e = Engine(F, 'Task.parent.setter', contracts, TASK_CLASSES, fc, plugins=[ListPlugin(), TaskListLit]); e.oblige_only = IDS_NEED
             return e, LIST_AX + GRAPH_AX + ROOT_AX
         fc = {'sig': {'self': T, 'parent': T}, 'ghost': {'X': S('SET', SET)},
@@ -311,9 +337,9 @@ def parent_setter_unit(kind='core'):
     return Unit('Task.parent.setter', F, build, ['C01', 'C05', 'C11', 'C15', 'C16'], shards=8, timeout_ms=15000)
 
 
-# parent_setter_unit('ids') (C05/U1 via the root-of-tree function) is NOT registered: 2 of its 30 path queries stay `unknown` within the budget
-# and several take 4-5 s - an unstable proof would raise false alarms; the clause is left to the bounded stand-in (DESIGN.md section 0)
-UNITS = [parent_setter_unit()]
+# parent_setter_unit('ids') carries C05/U1 (ids unique within every tree) through the root-of-tree function: a lemma chain (closed form of the roots after the
+# move, the moved subtree was in one tree, ...) keeps each query small; every path is decided by one of three seeds within the short budget
+UNITS = [parent_setter_unit(), parent_setter_unit('ids')]
 
 
 # ================================================================================================ dependency setters
@@ -907,7 +933,7 @@ def c_check_not_none(eng, st, recv, args, kws, node):
 
 
 def c_set_parent(eng, st, recv, args, kws, node):
-    return parent_setter_call(eng, st, recv.e, args[0].e, node.lineno)
+    return parent_setter_call(eng, st, recv.e, args[0].e, node.lineno, ids=True)
 
 
 def append_unit():
@@ -922,7 +948,7 @@ def append_unit():
                 extra = {'task-is-no-hidden-root': ForAll([w_], Implies(w_ != W.null, h.root[w_] != c['task'])), 'facade-non-null': c['self'] != FAC.null}
                 return {**Inv(h), **extra}[lab]
             return f
-        labels = [l_ for l_ in INV_LABELS if l_ != U1]
+        labels = list(INV_LABELS)
         fc = {'sig': {'self': FAC, 'task': T},
               'requires': [(l_, req(l_)) for l_ in labels + ['task-is-no-hidden-root', 'facade-non-null']],
               'raises': {'RuntimeError': [('C15/rejected-call-changes-nothing', lambda c: And(H(c.eng, c.st).par == pre_h(c).par, H(c.eng, c.st).elems == pre_h(c).elems, H(c.eng, c.st).own == pre_h(c).own)),
@@ -996,7 +1022,7 @@ def insert_unit():
                          'NN-children-non-null': ForAll([t_, x], Implies(And(t_ != null, mem(h.ch(t_), x)), x != null), patterns=[mem(h.ch(t_), x)])}
                 return {**Inv(h), **extra}[lab]
             return f
-        labels = [l_ for l_ in INV_LABELS if l_ != U1]
+        labels = list(INV_LABELS)
         newtask = lambda c: Not(mem(L0(c), c['task']))
         fc = {'sig': {'self': FAC, 'index': INT, 'task': T}, 'locals': {'anchor': T},
               'requires': [(l_, req(l_)) for l_ in labels + ['task-is-no-hidden-root', 'facade-aliases-its-parents-list-object', 'NN-children-non-null']],
